@@ -118,16 +118,12 @@ func evalDec(args []string) string {
 	}
 	c18fixture()
 	v := c18run(args[0], f, in, extra)
+	if v != "" && v != "panic" && c18Stretch[args[0]] && c18BigInteger(in) {
+		v = "" // time and memory spent on an iteration count that the input carries
+	}
 	if v == "slow" || v == "alloc" {
 		// once more: a verdict that depends on the clock or on the collector must reproduce
-		if v2 := c18run(args[0], f, in, extra); v2 == "" {
-			v = ""
-		} else {
-			v = v2
-		}
-	}
-	if v != "" && v != "panic" && c18Stretch[args[0]] && c18BigInteger(in) {
-		v = ""
+		v = c18run(args[0], f, in, extra)
 	}
 	if v == "" {
 		return "ok"
